@@ -100,6 +100,11 @@ def main():
         for op in ('exp', 'log', 'abs', 'heaviside'):
             templates.append((op, ('+', leaf, ('num', 0.5))))
             templates.append((op, ('-', ('*', leaf, ('num', 3)), ('num', 1.7))))
+    # a power of a power whose inner base can be negative ((b^2)^0.5 is |b|, not b; (b^2)^1.5 is |b|^3): the value is real and well defined
+    for inner in (('-', X_, K_), ('-', K_, X_), ('-', X_, ('num', 2.0)), ('-', ('sp', 'prot_2a'), ('*', ('num', 2), K_))):
+        for p_in, p_out in ((2, 0.5), (2, 1.5), (4, 0.25), (2, ('/', K_, ('num', 3)))):
+            templates.append(('^', ('^', inner, ('num', p_in)), p_out if isinstance(p_out, tuple) else ('num', p_out)))
+            templates.append(('+', ('^', ('^', inner, ('num', p_in)), p_out if isinstance(p_out, tuple) else ('num', p_out)), V_))
     for it in range(SPEC.get('rounds', 300) + len(templates)):
         e = templates[it] if it < len(templates) else gen(rng, rng.randint(1, 5))
         s = render(e)
